@@ -74,11 +74,15 @@ def classify(case):
 
 @st.composite
 def cases(draw, name, tier):
-    case = draw(base_case(name, max_len=8 if tier == "quick" else 12, max_src=4 if tier == "quick" else 5))
+    case = draw(base_case(name, max_len=8 if tier == "quick" else 12, max_src=4 if tier == "quick" else 5,
+                          aliasing=name in ("zip", "zip_longest", "map", "chain", "compress")))
     # "the same data" may be given as list, one-shot iterator or async generator
     if name != "iter_sentinel":
         for s in case["srcs"]:
             s["fl"] = draw(st.sampled_from(["agen", "agen", "list", "iter"]))
+        for s in case["srcs"]:
+            if s.get("alias") is not None and case["srcs"][s["alias"]]["fl"] == "list":
+                case["srcs"][s["alias"]]["fl"] = "iter"  # aliasing is about one-shot iterators
     if name == "tee" and case["params"]["n"] >= 2 and case["plan"]:
         # a child may also be closed / dropped early: its siblings must be unaffected
         k = case["params"]["n"]
